@@ -6,19 +6,23 @@ import sys, os, glob, json, subprocess, re
 V = os.path.dirname(os.path.dirname(os.path.abspath(__file__)))
 REPO = os.environ.get("WW_REPO", "/repo")
 PROPS = ["C%02d" % i for i in range(1, 21)]
-only = set(sys.argv[1:])
-res_path = V + "/benign/RESULTS.json"
+only = set(a for a in sys.argv[1:] if not a.startswith("--"))
+shard = next((a[8:] for a in sys.argv[1:] if a.startswith("--shard=")), None)  # --shard=i/n with WW_REPO / WW_OUT per shard
+OUT = os.environ.get("WW_OUT", "/var/tmp/benign_out")
+res_path = V + "/benign/RESULTS.json" if not shard else OUT + "/RESULTS.part.json"
 results = json.load(open(res_path)) if os.path.exists(res_path) and only else {}
 def sh(cmd, cwd=REPO): return subprocess.run(cmd, shell=True, cwd=cwd, capture_output=True, text=True)
-for d in sorted(glob.glob(V + "/benign/C*-b*.diff")):
+os.makedirs(OUT, exist_ok=True)
+for _k, d in enumerate(sorted(glob.glob(V + "/benign/C*-b*.diff"))):
     name = os.path.basename(d)[:-5]
     if only and name not in only: continue
+    if shard and _k % int(shard.split("/")[1]) != int(shard.split("/")[0]): continue
     if sh("git diff --quiet").returncode != 0: print("repo dirty"); sys.exit(2)
     if sh(f"git apply {d}").returncode != 0: results[name] = {"error": "patch does not apply"}; continue
     row = {}
     try:
         for p in PROPS:
-            r = subprocess.run([V + "/bin/check", p, "--outdir", "/var/tmp/benign_out"], cwd=V, capture_output=True, text=True)
+            r = subprocess.run([V + "/bin/check", p, "--outdir", OUT], cwd=V, capture_output=True, text=True, env=dict(os.environ, WW_REPO=REPO))
             row[p] = r.returncode
             if r.returncode != 0:
                 row[p + "_why"] = [l.strip()[:300] for l in (r.stdout + r.stderr).split("\n") if re.search(r"VIOLATION|INCONCLUSIVE|failed obligation", l)][:3]
